@@ -530,6 +530,14 @@ func codecExec(tok []string) string {
 		return codecFirst([]byte(unhx(tok[1])))
 	case "later":
 		return codecLater([]byte(unhx(tok[1])))
+	case "disp":
+		return codecDisp(tok)
+	case "nh":
+		return codecNH(tok)
+	case "lane":
+		return codecLane(tok)
+	case "sess":
+		return codecSess([]byte(unhx(tok[1])), []byte(unhx(tok[2])))
 	case "gold":
 		data := []byte(unhx(tok[1]))
 		m, err := msg.ReadMsg(bytes.NewReader(data))
@@ -854,8 +862,25 @@ func codecGen(rng *rand.Rand, n int, emit func(string)) {
 			emit(fmt.Sprintf("rt %d %d %s", t, s+8*rng.Int63n(1<<30), hxb(codec_randBytes(rng, rng.Intn(4)))))
 		}
 	}
-	nFirst, nLater := 0, 0
+	nFirst, nLater, nSess := 0, 0, 0
 	for i := 0; i < n; i++ {
+		// session level: the real Dispatcher over a pipe (every 4th op), a live control connection (few)
+		if i%16 == 1 {
+			emit(cdGenNH(rng))
+			continue
+		}
+		if i%16 == 9 {
+			emit(cdGenLane(rng))
+			continue
+		}
+		if i%4 == 3 {
+			emit(cdGenDisp(rng))
+			if nSess < 40 && rng.Intn(100) == 0 {
+				nSess++
+				emit(cdGenSess(rng))
+			}
+			continue
+		}
 		switch k := rng.Intn(20); {
 		case k < 6:
 			emit(fmt.Sprintf("rt %d %d %s", pick(rng, types), rng.Int63n(1<<40), hxb(codec_randBytes(rng, rng.Intn(4)))))
